@@ -162,9 +162,9 @@ def rule_verdict(program, ctx):
                 ctx.bad(finding_func(P, rid, fn, f"no `raise` is controlled by `{text}`", text=f"def {fn.name}(...) :: {text}"))
 
 
-def rule_handlers(program, ctx):
-    rid = ctx.rule(
-        "C16.handlers",
+def rule_handlers(program, ctx, prop=P, rid="C16.handlers"):
+    ctx.rule(
+        rid,
         "web.start_client: the try around storage.add_event has handlers for StorageError/AuthenticationError and a "
         "catch-all `except Exception`, each assigning result = False; validators raise only Exception subclasses",
         floor=1,
@@ -175,19 +175,19 @@ def rule_handlers(program, ctx):
         if isinstance(t, ast.Try) and any(isinstance(c, ast.Call) and call_name(c).endswith(".add_event") for s in t.body for c in ast.walk(s)):
             tries.append(t)
     if not tries:
-        ctx.bad(finding_func(P, rid, fn, "storage.add_event is not called inside a try block", text="def start_client(...)"))
+        ctx.bad(finding_func(prop, rid, fn, "storage.add_event is not called inside a try block", text="def start_client(...)"))
         return
     t = tries[-1]  # ast.walk is breadth-first: the innermost try comes last
     from ..cfg import catches
     catch_all = [h for h in t.handlers if catches(h, "exc") == "all"]
     if not catch_all:
-        ctx.bad(finding_at(P, rid, t.handlers[0] if t.handlers else t, "no catch-all `except Exception` around add_event: a validator raising an unexpected type is not answered OK,false"))
+        ctx.bad(finding_at(prop, rid, t.handlers[0] if t.handlers else t, "no catch-all `except Exception` around add_event: a validator raising an unexpected type is not answered OK,false"))
     for h in t.handlers:
         assigns = [s for s in ast.walk(h) if isinstance(s, ast.Assign) and any(isinstance(x, ast.Name) and x.id == "result" for x in s.targets)]
         if assigns and all(isinstance(a.value, ast.Constant) and a.value.value is False for a in assigns):
             ctx.ok(rid, h, f"{norm(h)} -> result = False")
         else:
-            ctx.bad(finding_at(P, rid, h, "handler of a rejected EVENT does not set result = False"))
+            ctx.bad(finding_at(prop, rid, h, "handler of a rejected EVENT does not set result = False"))
     # raised types
     for q in SLOTS:
         f = program.func(q)
@@ -195,7 +195,7 @@ def rule_handlers(program, ctx):
             if isinstance(r, ast.Raise) and r.exc is not None:
                 nm = call_name(r.exc) if isinstance(r.exc, ast.Call) else dotted(r.exc)
                 if nm.split(".")[-1] not in ("StorageError", "AuthenticationError", "VerificationError", "ValueError", "TypeError"):
-                    ctx.bad(finding_at(P, rid, r, f"validator raises {nm}, not a known Exception subclass"))
+                    ctx.bad(finding_at(prop, rid, r, f"validator raises {nm}, not a known Exception subclass"))
 
 
 def shared_sets(program):
@@ -273,12 +273,48 @@ def rule_lists(program, ctx):
         ctx.info(rid, fn, "is_pubkey_allowed treats an empty list as not enforced (hence the no-empty-window rule)")
 
 
+def rule_builder(program, ctx, prop=P, rid="C16.builder"):
+    from ..lib import guard_atoms
+
+    ctx.rule(
+        rid,
+        "the dynamic allow/deny sets are per-process globals, so every worker process builds them: in web.start_mainprocess_tasks the `await ListBuilder().start()` is "
+        "conditioned on Config.dynamic_lists only - not nested under the `is_main_process` election (a multiprocessing.Event shared by pre-forked workers), which lets "
+        "exactly one worker enforce the lists while the others treat their empty sets as 'not enforced'",
+        floor=1,
+    )
+    fn = program.func("nostr_relay.web:start_mainprocess_tasks")
+    calls = [c for c in walk_no_nested(fn) if isinstance(c, ast.Call) and isinstance(c.func, ast.Attribute) and c.func.attr == "start" and "ListBuilder" in ast.unparse(c.func.value)]
+    if not calls:
+        ctx.bad(finding_func(prop, rid, fn, "start_mainprocess_tasks no longer starts the ListBuilder", text="def start_mainprocess_tasks(...) :: ListBuilder"))
+        return
+    for c in calls:
+        atoms = guard_atoms(c, stop=fn)
+        extra = [(e, pol) for e, pol in atoms if "dynamic_lists" not in ast.unparse(e)]
+        if extra:
+            e, pol = extra[0]
+            ctx.bad(finding_at(prop, rid, c, f"the list builder is started only when `{'' if pol else 'not '}{ast.unparse(e)[:60]}`: workers for which that is false never load the dynamic lists "
+                               "and admit every pubkey"))
+        elif not isinstance(getattr(c, "_parent", None), ast.Await):
+            ctx.bad(finding_at(prop, rid, c, "ListBuilder().start() is not awaited"))
+        else:
+            ctx.ok(rid, c, "ListBuilder started in every worker when dynamic_lists is configured")
+
+
 def run(program, ctx):
+    from ..lib import rule_awaited
+
+    rule_awaited(program, ctx, P, ANCHORS)
     c03.rule_gate(program, ctx, prop=P, rid="C16.gate")
     c03.rule_chain(program, ctx, prop=P, rid="C16.chain")
     rule_verdict(program, ctx)
     rule_handlers(program, ctx)
     rule_lists(program, ctx)
+    rule_builder(program, ctx)
+    from . import c04
+
+    # the static black/white lists are compared as strings with event.pubkey: they rely on admission accepting only the canonical lower-case spelling
+    c04.rule_canonical(program, ctx, prop=P, rid="C16.canonical")
     ctx.not_decided += [
         "each validator's numeric bound (content length, age, PoW bits, tag counts) at and around the limit",
         "contents of the dynamic lists as a function of the configured queries",
